@@ -30,32 +30,155 @@ pub enum Op {
     Shutdown { s: u8, how: u8 },
     Close { s: u8 },
     Reopen { s: u8 },
+    /// the peer writes one byte, so the descriptor becomes readable and a registered read
+    /// interest fires (the event loop delivers the readiness event); the model is unchanged:
+    /// a delivered event does not remove the interest
+    PeerWrite { s: u8 },
+    /// read whatever is pending on the descriptor (non-blocking, plain libc)
+    Drain { s: u8 },
 }
 
 #[derive(Debug, Clone, Serialize, Deserialize)]
 pub struct Case {
     pub loops: u8,
     pub ops: Vec<Op>,
+    /// who issues op k: 0 = the driver (a plain thread), 1 / 2 = one of two long-lived tasks
+    /// running on the event loops (missing entries = 0). With one loop all three reach the
+    /// same selector; with two loops the tasks normally sit on different loops and a plain
+    /// thread is dispatched round-robin.
+    #[serde(default)]
+    pub actors: Vec<u8>,
 }
 
-pub fn strategy(max_loops: u8) -> impl Strategy<Value = Case> {
+/// `actor_mode`: 0 = every op by the plain driver thread, 1 = every op by one task,
+/// 2 = generated per op among {thread, task 1, task 2}.
+pub fn strategy(min_loops: u8, max_loops: u8, actor_mode: u8) -> impl Strategy<Value = Case> {
     (
-        1u8..=max_loops,
+        min_loops..=max_loops,
         proptest::collection::vec(
-            prop_oneof![
-                5 => (0u8..3).prop_map(|s| Op::WaitRead { s }),
-                5 => (0u8..3).prop_map(|s| Op::WaitWrite { s }),
-                3 => (0u8..3).prop_map(|s| Op::DelRead { s }),
-                3 => (0u8..3).prop_map(|s| Op::DelWrite { s }),
-                2 => (0u8..3).prop_map(|s| Op::DelBoth { s }),
-                2 => (0u8..3, 0u8..3).prop_map(|(s, how)| Op::Shutdown { s, how }),
-                2 => (0u8..3).prop_map(|s| Op::Close { s }),
-                2 => (0u8..3).prop_map(|s| Op::Reopen { s }),
-            ],
-            1..16,
+            (
+                prop_oneof![
+                    6 => (0u8..3).prop_map(|s| Op::WaitRead { s }),
+                    6 => (0u8..3).prop_map(|s| Op::WaitWrite { s }),
+                    3 => (0u8..3).prop_map(|s| Op::DelRead { s }),
+                    3 => (0u8..3).prop_map(|s| Op::DelWrite { s }),
+                    1 => (0u8..3).prop_map(|s| Op::DelBoth { s }),
+                    2 => (0u8..3, 0u8..3).prop_map(|(s, how)| Op::Shutdown { s, how }),
+                    2 => (0u8..3).prop_map(|s| Op::Close { s }),
+                    3 => (0u8..3).prop_map(|s| Op::Reopen { s }),
+                    4 => (0u8..3).prop_map(|s| Op::PeerWrite { s }),
+                    1 => (0u8..3).prop_map(|s| Op::Drain { s }),
+                ],
+                0u8..3,
+            ),
+            1..24,
         ),
     )
-        .prop_map(|(loops, ops)| Case { loops, ops })
+        .prop_map(move |(loops, v)| {
+            let (ops, actors): (Vec<Op>, Vec<u8>) = v.into_iter().unzip();
+            let actors = match actor_mode {
+                0 => vec![],
+                1 => vec![1; ops.len()],
+                _ => actors,
+            };
+            Case { loops, ops, actors }
+        })
+}
+
+/// The part of an op that touches the runtime, executed by the chosen actor. Returns
+/// (ok, note).
+fn runtime_call(op: Op, fd: c_int, peer: c_int) -> (bool, String) {
+    let w = Some(Duration::from_millis(1));
+    match op {
+        Op::WaitRead { .. } => {
+            let r = EventLoops::wait_read_event(fd, w);
+            (r.is_ok(), if r.is_ok() { String::new() } else { format!("wait_read_event: {r:?}") })
+        }
+        Op::WaitWrite { .. } => {
+            let r = EventLoops::wait_write_event(fd, w);
+            (r.is_ok(), if r.is_ok() { String::new() } else { format!("wait_write_event: {r:?}") })
+        }
+        Op::DelRead { .. } => {
+            let r = EventLoops::del_read_event(fd);
+            (r.is_ok(), if r.is_ok() { String::new() } else { format!("del_read_event: {r:?}") })
+        }
+        Op::DelWrite { .. } => {
+            let r = EventLoops::del_write_event(fd);
+            (r.is_ok(), if r.is_ok() { String::new() } else { format!("del_write_event: {r:?}") })
+        }
+        Op::DelBoth { .. } => {
+            let r = EventLoops::del_event(fd);
+            (r.is_ok(), if r.is_ok() { String::new() } else { format!("del_event: {r:?}") })
+        }
+        Op::Shutdown { how, .. } => {
+            let how_c = [libc::SHUT_RD, libc::SHUT_WR, libc::SHUT_RDWR][how as usize % 3];
+            let r = hooked::shutdown(None, fd, how_c);
+            (true, if r == 0 { String::new() } else { format!("shutdown returned {r}") })
+        }
+        Op::Close { .. } => {
+            let a = hooked::close(None, fd);
+            let b = hooked::close(None, peer);
+            (true, if a == 0 && b == 0 { String::new() } else { format!("close returned {a},{b}") })
+        }
+        Op::Reopen { .. } => (true, String::new()),
+        Op::PeerWrite { .. } => {
+            let b = [7u8];
+            let r = unsafe { libc::send(peer, b.as_ptr().cast(), 1, libc::MSG_DONTWAIT | libc::MSG_NOSIGNAL) };
+            // give the event loop time to fetch and dispatch the readiness event
+            std::thread::sleep(Duration::from_millis(3));
+            (true, if r == 1 { String::new() } else { format!("peer send returned {r}") })
+        }
+        Op::Drain { .. } => {
+            let mut b = [0u8; 64];
+            let r = unsafe { libc::recv(fd, b.as_mut_ptr().cast(), 64, libc::MSG_DONTWAIT) };
+            (true, format!("drained {r}"))
+        }
+    }
+}
+
+type Cmd = (Op, c_int, c_int);
+
+struct Actor {
+    tx: std::sync::mpsc::Sender<Cmd>,
+    rx: std::sync::mpsc::Receiver<(bool, String, String)>,
+}
+
+fn spawn_actor(name: &str) -> Actor {
+    let (tx, crx) = std::sync::mpsc::channel::<Cmd>();
+    let (rtx, rx) = std::sync::mpsc::channel::<(bool, String, String)>();
+    let _ = EventLoops::submit_task(
+        Some(name.to_string()),
+        move |_| {
+            struct G;
+            impl Drop for G {
+                fn drop(&mut self) {
+                    if std::env::var_os("C21_DEBUG").is_some() {
+                        eprintln!("actor closure dropped on {:?}: {}", std::thread::current().name(), std::backtrace::Backtrace::force_capture());
+                    }
+                }
+            }
+            let _g = G;
+            loop {
+                match crx.try_recv() {
+                    Ok((op, fd, peer)) => {
+                        let (ok, note) = runtime_call(op, fd, peer);
+                        let th = std::thread::current().name().unwrap_or("?").to_string();
+                        let _ = rtx.send((ok, note, th));
+                    }
+                    Err(std::sync::mpsc::TryRecvError::Empty) => {
+                        if let Some(s) = open_coroutine_core::scheduler::SchedulableSuspender::current() {
+                            s.delay(Duration::from_micros(300));
+                        }
+                    }
+                    Err(std::sync::mpsc::TryRecvError::Disconnected) => break,
+                }
+            }
+            None
+        },
+        None,
+        None,
+    );
+    Actor { tx, rx }
 }
 
 fn epoll_fds() -> Vec<c_int> {
@@ -118,103 +241,79 @@ pub fn child_main() -> i32 {
     let mut model: BTreeMap<c_int, (bool, bool)> = BTreeMap::new();
     let mut both_then_removed_one = false;
     let mut reused = false;
+    let mut read_event_fired = false;
     let mut closed_numbers: Vec<c_int> = vec![];
-    let w = Some(Duration::from_millis(1));
+    let need_tasks = case.actors.iter().any(|a| *a != 0);
+    let actors: Vec<Actor> = if need_tasks { vec![spawn_actor("c21-actor-1"), spawn_actor("c21-actor-2")] } else { vec![] };
+    let mut actor_threads: std::collections::BTreeSet<String> = std::collections::BTreeSet::new();
     for (k, op) in case.ops.iter().enumerate() {
         child::emit(json!({"ev":"start","k":k}));
         let mut note = String::new();
-        match *op {
-            Op::WaitRead { s } => {
-                if let Some((fd, _)) = slots[s as usize % 3] {
-                    let r = EventLoops::wait_read_event(fd, w);
-                    if r.is_ok() {
-                        model.entry(fd).or_default().0 = true;
-                    } else {
-                        note = format!("wait_read_event: {r:?}");
-                    }
+        let who = case.actors.get(k).copied().unwrap_or(0) % 3;
+        let s_ix = match *op {
+            Op::WaitRead { s } | Op::WaitWrite { s } | Op::DelRead { s } | Op::DelWrite { s } | Op::DelBoth { s } | Op::Shutdown { s, .. } | Op::Close { s } | Op::Reopen { s } | Op::PeerWrite { s } | Op::Drain { s } => s as usize % 3,
+        };
+        if let Op::Reopen { .. } = *op {
+            if slots[s_ix].is_none() {
+                open(&mut slots, s_ix);
+                let (a, _) = slots[s_ix].unwrap();
+                if closed_numbers.contains(&a) {
+                    reused = true;
                 }
             }
-            Op::WaitWrite { s } => {
-                if let Some((fd, _)) = slots[s as usize % 3] {
-                    let r = EventLoops::wait_write_event(fd, w);
-                    if r.is_ok() {
-                        model.entry(fd).or_default().1 = true;
-                    } else {
-                        note = format!("wait_write_event: {r:?}");
-                    }
+        } else if let Some((fd, peer)) = slots[s_ix] {
+            // bookkeeping that must look at the model before the call
+            {
+                let e = model.entry(fd).or_default();
+                let removes_one = matches!(*op, Op::DelRead { .. } | Op::DelWrite { .. }) || matches!(*op, Op::Shutdown { how, .. } if how % 3 != 2);
+                if e.0 && e.1 && removes_one {
+                    both_then_removed_one = true;
                 }
             }
-            Op::DelRead { s } => {
-                if let Some((fd, _)) = slots[s as usize % 3] {
-                    let e = model.entry(fd).or_default();
-                    if e.0 && e.1 {
-                        both_then_removed_one = true;
-                    }
-                    let r = EventLoops::del_read_event(fd);
-                    if r.is_ok() {
-                        e.0 = false;
-                    } else {
-                        note = format!("del_read_event: {r:?}");
-                    }
+            let plain = matches!(*op, Op::PeerWrite { .. } | Op::Drain { .. });
+            if let Op::PeerWrite { .. } = *op {
+                if model.get(&fd).is_some_and(|e| e.0) {
+                    read_event_fired = true;
                 }
             }
-            Op::DelWrite { s } => {
-                if let Some((fd, _)) = slots[s as usize % 3] {
-                    let e = model.entry(fd).or_default();
-                    if e.0 && e.1 {
-                        both_then_removed_one = true;
+            let (ok, n) = if who == 0 || actors.is_empty() || plain {
+                runtime_call(*op, fd, peer)
+            } else {
+                let a = &actors[(who - 1) as usize];
+                let _ = a.tx.send((*op, fd, peer));
+                match a.rx.recv_timeout(Duration::from_secs(10)) {
+                    Ok((ok, n, th)) => {
+                        actor_threads.insert(th);
+                        (ok, n)
                     }
-                    let r = EventLoops::del_write_event(fd);
-                    if r.is_ok() {
-                        e.1 = false;
-                    } else {
-                        note = format!("del_write_event: {r:?}");
-                    }
-                }
-            }
-            Op::DelBoth { s } => {
-                if let Some((fd, _)) = slots[s as usize % 3] {
-                    let r = EventLoops::del_event(fd);
-                    if r.is_ok() {
-                        *model.entry(fd).or_default() = (false, false);
-                    } else {
-                        note = format!("del_event: {r:?}");
+                    Err(_) => {
+                        // the task never answered: leave the op open, the parent reports it
+                        std::thread::sleep(Duration::from_secs(60));
+                        (false, "actor task did not answer".into())
                     }
                 }
-            }
-            Op::Shutdown { s, how } => {
-                if let Some((fd, _)) = slots[s as usize % 3] {
-                    let how_c = [libc::SHUT_RD, libc::SHUT_WR, libc::SHUT_RDWR][how as usize % 3];
-                    let e = model.entry(fd).or_default();
-                    if e.0 && e.1 && how % 3 != 2 {
-                        both_then_removed_one = true;
-                    }
-                    let _ = hooked::shutdown(None, fd, how_c);
-                    match how % 3 {
-                        0 => e.0 = false,
-                        1 => e.1 = false,
-                        _ => *e = (false, false),
-                    }
-                }
-            }
-            Op::Close { s } => {
-                if let Some((fd, peer)) = slots[s as usize % 3].take() {
-                    let _ = hooked::close(None, fd);
-                    let _ = hooked::close(None, peer);
+            };
+            note = n;
+            let e = model.entry(fd).or_default();
+            match *op {
+                Op::WaitRead { .. } if ok => e.0 = true,
+                Op::WaitWrite { .. } if ok => e.1 = true,
+                Op::DelRead { .. } if ok => e.0 = false,
+                Op::DelWrite { .. } if ok => e.1 = false,
+                Op::DelBoth { .. } if ok => *e = (false, false),
+                Op::Shutdown { how, .. } => match how % 3 {
+                    0 => e.0 = false,
+                    1 => e.1 = false,
+                    _ => *e = (false, false),
+                },
+                Op::Close { .. } => {
+                    slots[s_ix] = None;
                     model.remove(&fd);
                     model.remove(&peer);
                     closed_numbers.push(fd);
                     closed_numbers.push(peer);
                 }
-            }
-            Op::Reopen { s } => {
-                if slots[s as usize % 3].is_none() {
-                    open(&mut slots, s as usize % 3);
-                    let (a, _) = slots[s as usize % 3].unwrap();
-                    if closed_numbers.contains(&a) {
-                        reused = true;
-                    }
-                }
+                _ => {}
             }
         }
         // compare kernel view with the model for every live descriptor
@@ -232,11 +331,22 @@ pub fn child_main() -> i32 {
         }
         child::emit(json!({"ev":"done","k":k,"bad":bad,"note":note}));
     }
-    child::emit(json!({"ev":"result","both_then_removed_one":both_then_removed_one,"reused":reused,"epolls":epoll_fds().len()}));
-    0
+    child::emit(json!({"ev":"result","both_then_removed_one":both_then_removed_one,"reused":reused,"read_event_fired":read_event_fired,"epolls":epoll_fds().len(),"actor_threads":actor_threads.len()}));
+    // actor tasks are still polling their channels: leave without tearing the runtime down
+    unsafe { libc::_exit(0) }
+}
+
+/// With two event loops the ops of a history reach more than one selector: a plain thread
+/// is dispatched round-robin, the two tasks live on different loops, and even a single task
+/// migrates between loops when its suspended coroutine is stolen. The interest records are
+/// process-wide while registrations are per loop, so such histories are judged under their
+/// own signature prefix (see known_findings.json).
+pub fn several_selectors(c: &Case) -> bool {
+    c.loops >= 2
 }
 
 pub fn exec(c: &Case) -> Outcome {
+    let pre = if several_selectors(c) { "C21/2-loops" } else { "C21" };
     let js = serde_json::to_string(c).unwrap();
     let r = child::run_child(&ChildSpec { args: vec!["C21child".into()], stdin: &js, timeout: Duration::from_secs(20), env: vec![] });
     let mut o = Outcome::pass();
@@ -245,7 +355,7 @@ pub fn exec(c: &Case) -> Outcome {
         End::Signal(sig) => {
             if let Some(k) = r.open_op().and_then(|v| v["k"].as_u64()) {
                 o.set_fail(
-                    "C21/process-killed-while-changing-interest",
+                    format!("{pre}/process-killed-while-changing-interest"),
                     format!("child killed by signal {sig} during op #{k} {:?}; {}", c.ops.get(k as usize), r.stderr_tail.lines().rev().take(2).collect::<Vec<_>>().join(" | ")),
                 );
             } else {
@@ -254,7 +364,7 @@ pub fn exec(c: &Case) -> Outcome {
             return o;
         }
         End::Deadline { .. } => {
-            o.set_fail("C21/call-did-not-return", format!("open op {:?}", r.open_op()));
+            o.set_fail(format!("{pre}/call-did-not-return"), format!("open op {:?}", r.open_op()));
             return o;
         }
         End::Exit(_) => {
@@ -265,8 +375,11 @@ pub fn exec(c: &Case) -> Outcome {
     if let Some(res) = r.result() {
         let a = res["both_then_removed_one"].as_bool().unwrap_or(false);
         let b = res["reused"].as_bool().unwrap_or(false);
+        let f = res["read_event_fired"].as_bool().unwrap_or(false);
         o.nontrivial = a || b;
-        o = o.class_if(a, "both-interests-then-one-removed").class_if(b, "descriptor-number-reused").class_if(c.loops > 1, "2+event-loops");
+        o = o.class_if(f, "read-event-delivered-while-interest-outstanding");
+        let t = res["actor_threads"].as_u64().unwrap_or(0);
+        o = o.class_if(a, "both-interests-then-one-removed").class_if(b, "descriptor-number-reused").class_if(c.loops > 1, "2+event-loops").class_if(t >= 2, "task-callers-on-2-loop-threads").class_if(c.actors.iter().any(|x| *x != 0), "ops-issued-from-tasks");
     }
     for l in r.find("done") {
         if let Some(b) = l["bad"].as_array().and_then(|b| b.first()) {
@@ -284,7 +397,7 @@ pub fn exec(c: &Case) -> Outcome {
                 _ => "mismatch",
             };
             o.set_fail(
-                format!("C21/{kind}"),
+                format!("{pre}/{kind}"),
                 format!("after op #{k} {:?}: descriptor {} model [read,write]={} kernel={} (epoll mask {})", c.ops[k], b["fd"], b["model"], b["kernel"], b["mask"]),
             );
             return o;
@@ -300,24 +413,24 @@ pub fn main(args: &Args) -> i32 {
     }
     let mut ev = Evidence::new("C21", args, "exploration");
     ev.assume("an interest is outstanding from the wait that registered it until it is removed through del_*/shutdown/close (the runtime never removes it by itself); the kernel's /proc/self/fdinfo of the epoll descriptor is ground truth");
-    ev.assume("one event loop (the interest records are process-wide; several loops are explored in the thorough tier only)");
+    ev.assume("with two event loops a history whose ops reach more than one selector (plain-thread callers are dispatched round-robin; tasks on different loops) is judged under its own signature prefix, because the interest records are process-wide while registrations are per loop");
     ev.add(vkit::run_regress("C21", |_s, case| exec(&serde_json::from_value(case).expect("case"))));
     if ev.has_violations() {
         return ev.finish();
     }
-    let loops = 1;
-    ev.add(vkit::run_prop(
-        &RunCfg {
-            property: "C21",
-            sub: "interest",
-            rule: "histories of 1..15 ops over 3 socketpairs: wait read/write (1 ms), remove read/write/both, shutdown(RD|WR|RDWR), close, reopen; non-trivial = a descriptor had both interests and one was removed, or a closed descriptor number was reused",
-            seed: args.seed,
-            cases: args.cases(300, 8_000),
-            shards: 8,
-            max_shrink_iters: 500,
-        },
-        move || strategy(loops),
-        exec,
-    ));
+    let rule = "histories of 1..23 ops over 3 socketpairs: wait read/write (1 ms), remove read/write/both, shutdown(RD|WR|RDWR), close, reopen, peer writes a byte (a registered read interest fires), drain; each op issued by a plain thread or by one of two tasks; non-trivial = a descriptor had both interests and one was removed, or a closed descriptor number was reused";
+    let n = args.cases(900, 12_000);
+    for (sub, lo, hi, mode, share) in [
+        ("1-loop-any-caller", 1u8, 1u8, 2u8, 0.55),
+        ("1-loop-thread-caller", 1, 1, 0, 0.15),
+        ("1-loop-one-task-caller", 1, 1, 1, 0.15),
+        ("2-loops", 2, 2, 2, 0.15),
+    ] {
+        ev.add(vkit::run_prop(
+            &RunCfg { property: "C21", sub, rule, seed: args.seed, cases: ((n as f64) * share).ceil() as u32, shards: 8, max_shrink_iters: 400 },
+            move || strategy(lo, hi, mode),
+            exec,
+        ));
+    }
     ev.finish()
 }
